@@ -879,6 +879,8 @@ def suite_perms(ck, sessions, n_values, judge=True):
     for ses in sessions:
         callers = declared_callers(ses.api)[:3]
         psets = subsets(callers)
+        # a caller's permissions are a list: what it may see must not depend on the order it names them in
+        psets += [list(reversed(p)) for p in psets if len(p) > 1]
         # --- class tables: real reflection attributes vs model (code-following) vs specification
         ops, meta = [], []
         for ref, dt in ses.built.ir_by_ref.items():
@@ -950,6 +952,13 @@ def suite_perms(ck, sessions, n_values, judge=True):
                 ck.failing_input('C13: encoding with permissions / redaction raises %s' % real[1],
                                  {'kind': 'penc-crash', 'exc': real[1]},
                                  {'specs': ses.specs, 'type': label, 'value': stored, 'perms': eperms, 'redact': redact})
+            if real[0] == 'verr' and judge and set(eperms) == set(vperms):
+                # the value was built by (and is valid for) a caller holding exactly these permissions: every member
+                # it sets "is present for callers holding c", so the encoder has nothing to refuse
+                ck.failing_input('C13: a value built by a caller holding %r cannot be encoded for that caller' % (list(eperms),),
+                                 {'kind': 'penc-refused-for-holder'},
+                                 {'specs': ses.specs, 'type': label, 'value': stored, 'perms': eperms, 'redact': redact,
+                                  'real': list(real)})
             if real[0] != 'ok':
                 continue
             text = json.dumps(tagged_to_json(real[1]), ensure_ascii=False)
